@@ -24,7 +24,7 @@ use std::sync::OnceLock;
 
 use symbol_table::GlobalSymbol;
 
-use crate::model::CV;
+use crate::model::{ACCESS, CV, access_expr};
 
 /// candidate spellings per name set; the first five that fall in pairwise
 /// different symbol shards are used
@@ -121,6 +121,8 @@ pub struct CCase {
     /// sigma[r] = rank of role r's name among the names of the program (symbol order)
     pub sigma: Vec<usize>,
     pub set: usize,
+    /// index into model::ACCESS: how the context read is written
+    pub access: usize,
 }
 
 impl CCase {
@@ -213,7 +215,7 @@ impl CCase {
             let mut body = format!("{} + (if d > 0 {{ {next}(d - 1) }} else {{ 0 }})", CCase::tag(i));
             if i == 0 && self.attached() {
                 if self.hops() == 0 {
-                    body.push_str(" + cv");
+                    body.push_str(&format!(" + {}", access_expr(self.access)));
                 } else {
                     body.push_str(&format!(" + {}()", self.role_name(self.h_role(1))));
                 }
@@ -225,7 +227,7 @@ impl CCase {
             let rest = if t < self.hops() {
                 format!("{}()", self.role_name(self.h_role(t + 1)))
             } else {
-                "cv".to_string()
+                access_expr(self.access)
             };
             text[r] = format!("fn {}() -> i32 {{ {} + {rest} }}", self.role_name(r), CCase::tag(r));
         }
@@ -272,6 +274,9 @@ pub struct CUnit {
     /// with (symbol order index + declaration order index) divisible by 8, i.e.
     /// every symbol order with k!/8 declaration orders and vice versa
     pub diagonal: bool,
+    /// false: the context read is the plain `cv`; true: the other access forms
+    /// in rotation over the cases
+    pub other_access: bool,
 }
 
 impl CUnit {
@@ -307,6 +312,11 @@ impl CUnit {
             perm: permutation(self.k(), perm_idx),
             sigma: permutation(self.k(), sigma_idx),
             set,
+            access: if self.other_access {
+                1 + ((3 * sigma_idx + 5 * perm_idx + self.mode_idx as u64) % (ACCESS.len() as u64 - 1)) as usize
+            } else {
+                0
+            },
         })
     }
 }
@@ -324,12 +334,14 @@ pub fn units(thorough: bool) -> Vec<CUnit> {
         let all_sets = thorough && k < 5;
         let per_sigma = factorial(k) / if diagonal { 8 } else { 1 } * if all_sets { N_SETS as u64 } else { 1 };
         let chunk = (1500 / per_sigma).max(1);
-        for mode_idx in 0..CCase::modes(config).len() {
-            let mut lo = 0;
-            while lo < factorial(k) {
-                let hi = (lo + chunk).min(factorial(k));
-                out.push(CUnit { config, mode_idx, sigma_lo: lo, sigma_hi: hi, all_sets, diagonal });
-                lo = hi;
+        for other_access in [false, true] {
+            for mode_idx in 0..CCase::modes(config).len() {
+                let mut lo = 0;
+                while lo < factorial(k) {
+                    let hi = (lo + chunk).min(factorial(k));
+                    out.push(CUnit { config, mode_idx, sigma_lo: lo, sigma_hi: hi, all_sets, diagonal, other_access });
+                    lo = hi;
+                }
             }
         }
     }
@@ -348,7 +360,7 @@ pub fn self_test() -> Result<(), String> {
         return Err("permutation decoding".into());
     }
     // step(d) = 1 + spin(d-1) + leaf(); spin(d) = 10 + step(d-1); leaf = 100 + cv
-    let c = CCase { config: 1, mode: Mode::Enter(1), perm: vec![0, 1, 2, 3], sigma: vec![0, 1, 2, 3], set: 0 };
+    let c = CCase { config: 1, mode: Mode::Enter(1), perm: vec![0, 1, 2, 3], sigma: vec![0, 1, 2, 3], set: 0, access: 0 };
     if !c.expect_reject() || c.val_c(1, 1) != 10 + 1 + 100 + CV || c.val_c(0, 2) != 1 + 100 + CV + 10 + 1 + 100 + CV {
         return Err("cycctx model self-test".into());
     }
